@@ -10,7 +10,7 @@ L1_NOTE = "Seam L1: the real leptos_i18n_parser::parse_locales run on project di
 CLAIMED = {
     "C01": (
         "bounded exhaustive enumeration of value forests executed on the real parser (L1) and through generated crates (L3), compared with a reference renderer",
-        "Every value forest over Text/Var/Comp up to the node bound, every whitespace combination inside tags and variables, literal segments made of white space only, numbers and booleans taken in through references, the value kinds (incl. references to a value that holds a reference) under every inherits map of a four-locale set declared in every order, every payload pair next to every delimiter, all literal-type pairs, in three containers (top level, nested subkeys, namespaces) is parsed by the real parse_locales and its tree evaluated the way generated code reads it; the result must equal the reference rendering of the AST the files were generated from. A shared probe crate holds values with 0..3 tag look-alikes (<br>, <hr/>, <p>) before and between real components, with ASCII and multi-byte text: nothing of the text is lost.",
+        "Every value forest over Text/Var/Comp up to the node bound, every whitespace combination inside tags and variables, literal segments made of white space only, numbers and booleans taken in through references, the value kinds (incl. references to a value that holds a reference) under every inherits map of a four-locale set declared in every order, every payload pair next to every delimiter, all literal-type pairs, in three containers (top level, nested subkeys, namespaces) is parsed by the real parse_locales and its tree evaluated the way generated code reads it; the result must equal the reference rendering of the AST the files were generated from. A shared probe crate holds values with 0..3 tag look-alikes (<br>, <hr/>, <p>) before and between real components, with ASCII and multi-byte text: nothing of the text is lost. References followed by white space (with and without arguments; at the end of the value, before more text, at both ends) keep it.",
         L1_NOTE + " Text alphabet excludes lone '<', '{{', '$t(' (no documented escape).",
         "DESIGN.md §3 C01",
     ),
@@ -22,7 +22,7 @@ CLAIMED = {
     ),
     "C04": (
         "exhaustive enumeration of range declarations x counts (all 256 for i8/u8) on the real loader (L1), in generated match arms of probe crates (L3) and through the real code generator (L2), against an independent spec parser + Rust comparison semantics",
-        "Every 1- and 2-branch (thorough: 3-branch) declaration over the spec alphabet for i8/u8 is evaluated for all 256 counts from the parsed Range<T> structures and selected at parse time through $t(r,{count:n}); wider integer types and floats are covered on boundary neighbourhoods and extremes; declarations in which two branches share one value; counts just outside the count type (rejected, never wrapped); float ranges with counts written as JSON integers (negative ones too); three- and four-level reference chains in which a middle key renames the count and outer keys pass an unrelated `count` must keep the range on its renamed count; declarations the statement rejects must be errors, a literal count no branch contains must be an error - never a panic or a wrong branch.",
+        "Every 1- and 2-branch (thorough: 3-branch) declaration over the spec alphabet for i8/u8 is evaluated for all 256 counts from the parsed Range<T> structures and selected at parse time through $t(r,{count:n}); wider integer types and floats are covered on boundary neighbourhoods and extremes; declarations in which two branches share one value; counts just outside the count type (rejected, never wrapped); float ranges with counts written as JSON integers (negative ones too); three- and four-level reference chains in which a middle key renames the count and outer keys pass an unrelated `count` must keep the range on its renamed count; declarations the statement rejects must be errors, a literal count no branch contains must be an error - never a panic or a wrong branch. Run-time float counts include NaN and both infinities.",
         L1_NOTE + " Rust's FromStr/PartialOrd define what bounds mean. Empty/inverted ranges may be rejected or accepted.",
         "DESIGN.md §3 C04",
     ),
@@ -34,19 +34,19 @@ CLAIMED = {
     ),
     "C06": (
         "exhaustive enumeration of reference chains (every name assignment), small digraphs incl. cycles, inherits maps x null/absent targets, locale and namespace variants on the real loader (L1) and in generated probe crates (L3) against a pure-substitution reference",
-        "Every chain of depth <= 2 (thorough 3) over 18 referencing forms (argument texts with multi-byte characters) x 10 target kinds in every assignment of key names, special targets (groups, missing keys, paths with a dangling middle segment), all digraphs on <= 3 nodes, 4-locale projects with explicit-null and inherited targets, two-namespace layouts: accepted projects must render exactly the substitution semantics in every locale, rejected ones must give an Err naming a key.",
+        "Every chain of depth <= 2 (thorough 3) over 18 referencing forms (argument texts with multi-byte characters) x 10 target kinds in every assignment of key names, special targets (groups, missing keys, paths with a dangling middle segment), all digraphs on <= 3 nodes, 4-locale projects with explicit-null and inherited targets, two-namespace layouts: accepted projects must render exactly the substitution semantics in every locale, rejected ones must give an Err naming a key. String arguments holding markup (a component alone, next to text, around a variable, nested, self-closed) go into a plain target, a wrapping target and through two hops.",
         L1_NOTE + " A target absent from the same locale's file cannot be referenced (documented) - expected Err.",
         "DESIGN.md §3 C06",
     ),
     "C07": (
         "exhaustive enumeration of per-locale key-set patterns x inherits x suppress_key_warnings build on the real loader (L1) against an exact-multiset diagnostics model, plus positive/negative compile probes of the generated key set (L3)",
-        "Every combination of presence/null/absence/group-value swap over a nested key universe, plural states and eight surplus shapes (incl. a surplus plural with a form its locale never selects) for a non-default locale (thorough: a third locale with every inherits map), with and without namespaces, the locales declared in every order, in the normal and the suppress_key_warnings build: the multiset of MissingKey/SurplusKey/UnusedForm diagnostics, the accessible key set, SubKeyMissmatch errors and every rendered key must be exactly what the statement says; (L3) namespaces with their own key and argument sets declared in a non-alphabetical order (thorough: all 6 orders of 3) compile and render each key with exactly its own arguments.",
+        "Every combination of presence/null/absence/group-value swap over a nested key universe, plural states and eight surplus shapes (incl. a surplus plural with a form its locale never selects) for a non-default locale (thorough: a third locale with every inherits map), with and without namespaces, the locales declared in every order, in the normal and the suppress_key_warnings build: the multiset of MissingKey/SurplusKey/UnusedForm diagnostics, the accessible key set, SubKeyMissmatch errors and every rendered key must be exactly what the statement says; (L3) namespaces with their own key and argument sets declared in a non-alphabetical order (thorough: all 6 orders of 3) compile and render each key with exactly its own arguments. Subkey groups and ranges named like plural forms stay the keys they are written as (64 projects, flat and namespaced).",
         L1_NOTE,
         "DESIGN.md §3 C07",
     ),
     "C08": (
         "exhaustive enumeration of per-locale value-kind tuples for one key on the real loader (L1) against a union-of-signatures model, plus compile probes (supplying exactly the union compiles, omitting any member does not) through the real proc-macro (L3)",
-        "Every 1-, 2- and 3-tuple of value kinds across locales (string, variables with and without formatters, components, three range types, plural, foreign keys renaming the count, fixing it (at an exact value, at the last value of a bounded branch) or passing an argument into a component / a plural form of the target or an argument that is itself a component, null, number, bool): the observed argument set (with count typing and formatter families) must be the union over locales after substitution, and count-typing conflicts must be the documented errors.",
+        "Every 1-, 2- and 3-tuple of value kinds across locales (string, variables with and without formatters, components, three range types, plural, foreign keys renaming the count, fixing it (at an exact value, at the last value of a bounded branch) or passing an argument into a component / a plural form of the target or an argument that is itself a component, null, number, bool): the observed argument set (with count typing and formatter families) must be the union over locales after substitution, and count-typing conflicts must be the documented errors. Kinds include ranges that are nothing but their fallback arm (typed and untyped).",
         L1_NOTE + " L3: one probe binary per omitted member, judged by `cargo check` diagnostics naming the probe file.",
         "DESIGN.md §3 C08",
     ),
@@ -64,7 +64,7 @@ CLAIMED = {
     ),
     "C11": (
         "exhaustive sweep of every Unicode scalar value and nasty two-character strings through the real loader (L1), the generated code's table sizes and indices (L2, syn visitor), the build helper's written files (vbuild, strict JSON reader) and the tables embedded in server-rendered pages (L3), checking every literal index against the exported table",
-        "Every Unicode scalar as a one-character translation and all pairs over 14 hostile characters, in flat, nested-subkey, namespaced, defaulted and foreign-key-duplicated layouts: each Literal::String(s,i) must satisfy strings[i]==s with i in range, and the string count recorded in every (sub-)locale must equal the table length; plus every assignment of 3 shared strings / an interpolation / null to 2 keys in 3-4 locales (x inherits x namespaces) and, for the build helper, every sequence of <= 3 exports of 4 project variants into one output directory; every assignment of 7 literal kinds to one key in 3 locales; (L3) the tables embedded in server-rendered pages (dynamic_load + ssr probe crates, every ordered subset of touched units incl. units with empty tables, eager and lazy reads) must decode to the tables the server function exports. For every project of the model corpus (plurals with keys between their forms, ranges, references, namespaces, inherits) the decoded table the build helper exports equals the strings list of the macro-way parse (ICU feature checks on), file by file, order included. The same invariants are checked on every project of every other L1 check. Each exported table is also read back through the library's client-side type LocaleServerFnOutputClient.",
+        "Every Unicode scalar as a one-character translation and all pairs over 14 hostile characters, in flat, nested-subkey, namespaced, defaulted and foreign-key-duplicated layouts: each Literal::String(s,i) must satisfy strings[i]==s with i in range, and the string count recorded in every (sub-)locale must equal the table length; plus every assignment of 3 shared strings / an interpolation / null to 2 keys in 3-4 locales (x inherits x namespaces) and, for the build helper, every sequence of <= 3 exports of 4 project variants into one output directory; every assignment of 7 literal kinds to one key in 3 locales; (L3) the tables embedded in server-rendered pages (dynamic_load + ssr probe crates, every ordered subset of touched units incl. units with empty tables, eager and lazy reads) must decode to the tables the server function exports. For every project of the model corpus (plurals with keys between their forms, ranges, references, namespaces, inherits) the decoded table the build helper exports equals the strings list of the macro-way parse (ICU feature checks on), file by file, order included. The same invariants are checked on every project of every other L1 check. Each exported table is also read back through the library's client-side type LocaleServerFnOutputClient. Pages also read a unit only through the td! view of a key without literal text.",
         L1_NOTE + " File written by the build helper / generated-code sizes: see engines vbuild / L2 in the evidence when present.",
         "DESIGN.md §3 C11",
     ),
@@ -82,13 +82,13 @@ CLAIMED = {
     ),
     "C15": (
         "exhaustive enumeration of environments (cookie header x cookie options x Accept-Language x parent x initial locale) on natively created contexts with injected header getters (RT), and of header values on generated enums whose default is declared first / in the middle / last / not at all (L3)",
-        "All ~1.7e5 environments build real contexts (init_i18n_context_with_options, init_i18n_subcontext_with_options, resolve_locale_with_options, and the generated <I18nContextProvider> / <I18nSubContextProvider> components - the former under every value of its html-attribute props, the latter alone and after a sibling provider holding another locale, which is not the parent) under the ssr feature with effects run to quiescence on a harness-owned executor; the configured locales have mixed specificity (en, fr, de, en-US) and the Accept-Language values include lists whose preferred entry maps to a less specific locale than a later one; the initial locale must follow cookie > Accept-Language best match (the C12 oracle: first matchable entry, exact match preferred) > default, and for sub-contexts cookie > initial > parent > same resolution; invalid cookie values are ignored. (L3) configurations with variant subtags (de next to de-1996; ca-valencia, de-CH-1996, de-CH) and headers with and without them.",
+        "All ~1.7e5 environments build real contexts (init_i18n_context_with_options, init_i18n_subcontext_with_options, resolve_locale_with_options, and the generated <I18nContextProvider> / <I18nSubContextProvider> components - the former under every value of its html-attribute props, the latter alone and after a sibling provider holding another locale, which is not the parent) under the ssr feature with effects run to quiescence on a harness-owned executor; the configured locales have mixed specificity (en, fr, de, en-US) and the Accept-Language values include lists whose preferred entry maps to a less specific locale than a later one; the initial locale must follow cookie > Accept-Language best match (the C12 oracle: first matchable entry, exact match preferred) > default, and for sub-contexts cookie > initial > parent > same resolution; invalid cookie values are ignored. (L3) configurations with variant subtags (de next to de-1996; ca-valencia, de-CH-1996, de-CH) and headers with and without them. Headers of 7-9 entries whose last entry is the first that matches.",
         "Seam RT (ssr). Client-only branches (navigator.languages, <html lang>) need a browser and are not executed. Accept-Language entries are fed without spaces (splitting is leptos-use's).",
         "DESIGN.md §3 C15",
     ),
     "C16": (
         "stateless exhaustive exploration of operation histories (depth <= 4/5) over a tree of contexts, replayed on the real reactive runtime under a harness-owned deterministic executor",
-        "Every history of set_locale / set_locale_untracked / set-through-scoped-view / set through a handle looked up with use_i18n() in the context's owner / sub-context creation (none, constant, wired initial locale; directly, through the generated <I18nSubContextProvider> component placed in the parent's owner, with provide_i18n_subcontext, or inside a tracking scope - a Memo that is read again after every step, whose re-run would replace the sub-context) / wired-signal writes / accessor creation / poll up to the depth bound is replayed from scratch on a fresh Owner; after every step every context, use_i18n() in its owner, a fresh scoped view and every accessor created earlier (t!, t_string!, tu_string!, t_display!, scoped) is read and compared with a context -> last-locale map; subscribers created earlier (a Memo over t_string! and an Effect writing what it sees into a sink; one Memo per tracked accessor - t_string!, t_display!, t!, scoped forms, t_format_string!, t_format_display!, get_locale - holding it alone) must hold the last locale after every tracked write (the effect once effects ran; after an untracked write they may lag until the next tracked one); replay determinism is self-checked. The harness has two locales of one language with different plural rules (pt-BR, pt-PT); the scoped setter and the looked-up handle write them.",
+        "Every history of set_locale / set_locale_untracked / set-through-scoped-view / set through a handle looked up with use_i18n() in the context's owner / sub-context creation (none, constant, wired initial locale; directly, through the generated <I18nSubContextProvider> component placed in the parent's owner, with provide_i18n_subcontext, or inside a tracking scope - a Memo that is read again after every step, whose re-run would replace the sub-context) / wired-signal writes / accessor creation / poll up to the depth bound is replayed from scratch on a fresh Owner; after every step every context, use_i18n() in its owner, a fresh scoped view and every accessor created earlier (t!, t_string!, tu_string!, t_display!, scoped) is read and compared with a context -> last-locale map; subscribers created earlier (a Memo over t_string! and an Effect writing what it sees into a sink; one Memo per tracked accessor - t_string!, t_display!, t!, scoped forms, t_format_string!, t_format_display!, get_locale - holding it alone) must hold the last locale after every tracked write (the effect once effects ran; after an untracked write they may lag until the next tracked one); replay determinism is self-checked. The harness has two locales of one language with different plural rules (pt-BR, pt-PT); the scoped setter and the looked-up handle write them. t_plural! / t_plural_ordinal! closures made earlier are accessors too.",
         "Seam RT (ssr, reactive_graph/effects). All tasks, including those leptos hands to the thread pool, run on the calling thread's queue when the harness polls. Wired-signal window: either value admitted until the next poll.",
         "DESIGN.md §3 C16",
     ),
@@ -100,7 +100,7 @@ CLAIMED = {
     ),
     "C20": (
         "exhaustive enumeration of (formatter/plural family, placement) singles and pairs on the real build helper against a used-family predicate computed from the AST",
-        "Each of 11 families (cardinal / plain / ordinal plurals, plurals whose count carries a number / currency formatter, 6 formatters) at each of 9 placements (default locale, non-default only, next to a non-string literal in the other locale, nested subkeys, range branch, plural form, only as a foreign-key target, second namespace, unreachable surplus key, none), namespaced or not, over 5 locale sets (incl. names with variant subtags), plus pairs of placements: the characteristic ICU data key of a family must be requested iff a reachable key uses the family in some locale (plural rules: the key of the kind in use - cardinal or ordinal - is required, no plural at all forbids both); reported locales, language identifiers, namespaces and file list must be exactly the configured ones. Placement plain-variable-in-default: the default locale prints the count / the variable plain and only another locale makes it a plural count or gives it the formatter.",
+        "Each of 11 families (cardinal / plain / ordinal plurals, plurals whose count carries a number / currency formatter, 6 formatters) at each of 9 placements (default locale, non-default only, next to a non-string literal in the other locale, nested subkeys, range branch, plural form, only as a foreign-key target, second namespace, unreachable surplus key, none), namespaced or not, over 5 locale sets (incl. names with variant subtags), plus pairs of placements: the characteristic ICU data key of a family must be requested iff a reachable key uses the family in some locale (plural rules: the key of the kind in use - cardinal or ordinal - is required, no plural at all forbids both); reported locales, language identifiers, namespaces and file list must be exactly the configured ones. Placement plain-variable-in-default: the default locale prints the count / the variable plain and only another locale makes it a plural count or gives it the formatter. Placement range-in-both-used-in-the-later-one: a range in both locales whose branches use the family in the later locale only.",
         "Seam: leptos_i18n_build::TranslationsInfos linked natively (parser built with `quote` as in a user's host build). The provider generation itself (DatagenProvider::new_latest_tested) needs a CLDR download and is not run: the request is what is checked.",
         "DESIGN.md §3 C20",
     ),
@@ -112,13 +112,13 @@ CLAIMED = {
     ),
     "C13": (
         "exhaustive near-miss string sweep per locale set inside generated probe crates, against configured names and direct ICU4X queries",
-        "For 8 (thorough 10) locale sets with regions, scripts, variants, near-duplicates and RTL languages, default listed first / last / not at all, the generated enum is checked inside a probe crate: get_all, every string representation, ICU locale / language identifier, CLDR direction, ScopedLocale forwarding, matching Serialize / Deserialize calls (round trip through formats that are not self-describing), and FromStr / cookie codec / serde over all case flips, prefixes, suffixes, one-character edits, whitespace and separator variants and all strings of length <= 4 over the names' letters.",
+        "For 8 (thorough 10) locale sets with regions, scripts, variants, near-duplicates and RTL languages, default listed first / last / not at all, the generated enum is checked inside a probe crate: get_all, every string representation, ICU locale / language identifier, CLDR direction, ScopedLocale forwarding, matching Serialize / Deserialize calls (round trip through formats that are not self-describing), and FromStr / cookie codec / serde over all case flips, prefixes, suffixes, one-character edits, whitespace and separator variants and all strings of length <= 4 over the names' letters. serde round trips also go through a reader, a serde_json::Value and a JSON string written with an escape (the name handed over as an owned string).",
         "Seam L3. ICU4X data is the trusted base for canonical identifiers and directionality. Surrounding whitespace may be accepted or refused (never another locale).",
         "DESIGN.md §3 C13",
     ),
     "C17": (
         "exhaustive enumeration of hostile string contents x ordered subsets of touched translation units, rendered natively by probe crates built with dynamic_load+ssr, decoded by an independent HTML/JS literal reader",
-        "All 196 two-character strings over 14 hostile characters plus </script>, <!--, -->, quotes, backtick, newlines, U+2028/9 (alone and inside sentences) are the translations of two probe crates; <I18nContextProvider> is rendered to HTML for every ordered subset of touched (locale, namespace) units - read lazily (render-time closures), eagerly (while the provider's children are built, as t_string! in a component body) or mixed -, for units whose table is empty next to others in every order, for units read only below a nested <I18nSubContextProvider>, for pages walked once with dry_resolve() before rendering, and for a context-driven render with a locale switch; every script element, cut as an HTML tokenizer cuts it, must be one valid assignment, and the decoded array of the last one (what the client finds) lists exactly the touched units, each with the table its server function exports. Each exported table is also read back through the library's client-side type LocaleServerFnOutputClient; the flat probe project names its second locale pt-br (a non-canonical spelling).",
+        "All 196 two-character strings over 14 hostile characters plus </script>, <!--, -->, quotes, backtick, newlines, U+2028/9 (alone and inside sentences) are the translations of two probe crates; <I18nContextProvider> is rendered to HTML for every ordered subset of touched (locale, namespace) units - read lazily (render-time closures), eagerly (while the provider's children are built, as t_string! in a component body) or mixed -, for units whose table is empty next to others in every order, for units read only below a nested <I18nSubContextProvider>, for pages walked once with dry_resolve() before rendering, and for a context-driven render with a locale switch; every script element, cut as an HTML tokenizer cuts it, must be one valid assignment, and the decoded array of the last one (what the client finds) lists exactly the touched units, each with the table its server function exports. Each exported table is also read back through the library's client-side type LocaleServerFnOutputClient; the flat probe project names its second locale pt-br (a non-canonical spelling). Pages also read a unit only through the td! view of a key without literal text.",
         "Seam L3 (dynamic_load + ssr), native rendering. The hydrate-side consumer needs a browser and is not executed.",
         "DESIGN.md §3 C17",
     ),
